@@ -166,6 +166,34 @@ def replay(st):
             post, objs = snap(objs, idtok)
             yield {"fam": "clone", "src": "model", "t": "export", "x": x, "y": yh, "children": True, "keep": True,
                    "out": out, "exc": exc, "pre": pre, "post": post, "touched": []}
+        # export_leaf inside a tree that has no Document on top (a detached copy of a top-level Section)
+        if kind in ("sec", "prop") and st["par"][x] != "none":
+            objs = W.build(st, mk=mk)
+            idtok = W.IdTok()
+            top = objs[x]
+            chain = []
+            while W.kind_of(top.parent) == "sec":
+                chain.append(top); top = top.parent
+            try:
+                ctop = top.clone(keep_id=True)
+            except Exception:
+                ctop = None
+            if ctop is not None and W.kind_of(top) == "sec":
+                cobjs = {"c0": ctop}
+                pre, cobjs = snap(cobjs, idtok)
+                # the object in the copy that corresponds to x (same id, keep_id)
+                cx = [h for h, o in cobjs.items() if o is not None and o.id == objs[x].id]
+                if cx:
+                    out, exc, r = "ok", "none", None
+                    try:
+                        r = cobjs[cx[0]].export_leaf()
+                        if r is not cobjs[cx[0]]:
+                            cobjs["y1"] = r
+                    except Exception as e:
+                        out, exc = "raised", type(e).__name__
+                    post, cobjs = snap(cobjs, idtok)
+                    yield {"fam": "clone", "src": "model", "t": "export", "x": cx[0], "y": "y1" if "y1" in cobjs else cx[0], "children": True, "keep": True,
+                           "out": out, "exc": exc, "pre": pre, "post": post, "touched": []}
         # export_leaf of a keep_id copy placed below its original (the chain then carries one id twice)
         if kind == "sec":
             objs = W.build(st, mk=mk)
@@ -212,6 +240,17 @@ def replay(st):
                         el.append("X")
                 post, objs = snap(objs, idtok)
                 yield {"fam": "clone", "src": "model", "t": "valmut", "which": "passed", "x": x, "y": x, "children": True,
+                       "keep": True, "out": "ok", "exc": "none", "pre": pre, "post": post, "touched": []}
+            except Exception:
+                pass
+            # an empty list handed in and filled by the caller afterwards
+            try:
+                E = []
+                p.values = E
+                pre, objs = snap(objs, idtok)
+                E.append("junk"); E.append(7)
+                post, objs = snap(objs, idtok)
+                yield {"fam": "clone", "src": "model", "t": "valmut", "which": "passed-empty", "x": x, "y": x, "children": True,
                        "keep": True, "out": "ok", "exc": "none", "pre": pre, "post": post, "touched": []}
             except Exception:
                 pass
